@@ -333,6 +333,23 @@ def sequential(rec, shard, thorough, scale):
                 if g.sequence & 0xfffff != low:
                     rec.violation("C16/e2e/initial-low-bits", case, f"{g.sequence:#x}")
                 rec.case(sha("e2e", int(k.now), low), ["e2e-init"], sample=lambda: case)
+            # a generator seeded with the start time draws across the carry out of its low 20 bits (the time bits are an
+            # initial value, not a field): successors, distinct, never zero, 2^32-1 -> 1
+            for low in (0xfffff, 0xffffe, 0xffff0):
+                k.rng = ForcedRandom([low])
+                g = H.SequenceGenerator(int(k.now))
+                cur = g.sequence
+                case = {"start_time": int(k.now), "random_low_bits": low, "draws": 40}
+                seen = {cur}
+                for i in range(40):
+                    v = g.next_sequence()
+                    cur = 1 if cur == MAX32 else cur + 1
+                    if v != cur or v == 0 or v in seen or g.sequence != v:
+                        rec.violation("C16/e2e/time-seeded/not-successors", case,
+                                      f"draw {i}: got {v:#x} (sequence property {g.sequence:#x}), expected {cur:#x}")
+                        break
+                    seen.add(v)
+                rec.case(sha("e2e-carry", int(k.now), low), ["e2e-carry-into-time-bits"], sample=lambda: case)
             node = Node("verif.node.example", "example")
             case = {"start_time": int(k.now), "via": "Node()"}
             if node.end_to_end_seq.sequence >> 20 != int(k.now) & 0xfff:
@@ -361,7 +378,7 @@ def run(tier, scale=1.0):
     rec = Recorder(PID)
     for d in hyp.pool_run(shard_main, (tier, scale)):
         rec.merge(d)
-    required = {"gen:seq": 1, "gen:sess": 1, "deviations:3": 1, "wrap": 1, "random-schedule": 1,
+    required = {"e2e-carry-into-time-bits": 1, "gen:seq": 1, "gen:sess": 1, "deviations:3": 1, "wrap": 1, "random-schedule": 1,
                 "sequential:wraps": 1, "sequential:low-to-high-carry": 1, "e2e:callers-of-one-node": 1, "e2e:watchdogs-of-one-pass": 1, "e2e-init": 1, "session-format": 1, "threads:3": 1}
     return finish(rec, tier=tier, level="exploration", rule=RULE, assumptions=ASSUME, t0=t0,
                   exhaustive=True, required_classes=required,
